@@ -541,7 +541,11 @@ pub fn term_to_json<T: BinderJson>(t: &Term<T>) -> J {
     J::Object(o)
 }
 
-/// Run `f`, turning a panic of the code under test into data.
+thread_local! {
+    static PANIC_LOC: std::cell::RefCell<String> = const { std::cell::RefCell::new(String::new()) };
+}
+
+/// Run `f`, turning a panic of the code under test into data (message + source location).
 pub fn guarded<T>(f: impl FnOnce() -> T + std::panic::UnwindSafe) -> Result<T, String> {
     match std::panic::catch_unwind(f) {
         Ok(v) => Ok(v),
@@ -553,13 +557,20 @@ pub fn guarded<T>(f: impl FnOnce() -> T + std::panic::UnwindSafe) -> Result<T, S
             } else {
                 "panic".to_string()
             };
-            Err(msg)
+            let loc = PANIC_LOC.with(|l| l.borrow().clone());
+            Err(format!("{msg} @ {loc}"))
         }
     }
 }
 
 pub fn silence_panics() {
-    std::panic::set_hook(Box::new(|_| {}));
+    std::panic::set_hook(Box::new(|info| {
+        let loc = info
+            .location()
+            .map(|l| format!("{}:{}", l.file(), l.line()))
+            .unwrap_or_default();
+        PANIC_LOC.with(|l| *l.borrow_mut() = loc);
+    }));
 }
 
 /// Run `f` on a thread with a big stack (the code under test recurses on term depth).
